@@ -1,7 +1,7 @@
 (* C07 — the reader neither invents, duplicates, reorders nor abandons stream bytes.
    For every byte string, every configuration and every behaviour of the three protocol
    parsers (they are parameters).  Statements only. *)
-From PyUbx Require Import Base Bytes Reader Reader_generic Reader_file.
+From PyUbx Require Import Base Bytes Reader Socket Reader_generic Reader_file Socket_lemmas.
 Open Scope N_scope.
 
 (* the raw items are non-overlapping slices of the input, in input order, and each begins
@@ -32,3 +32,17 @@ Theorem C07_terminates : forall (P : Type) (parse : N -> bytes -> result P) (nme
   out_of_fuel (file_read_all parse nmea_hdr c s) = false.
 Proof. exact @c08_read_terminates. Qed.
 Print Assumptions C07_terminates.
+
+(* through a SOCKET (any recv() schedule whose failures come after the last data): the raw items are slices, in
+   order, of the byte sequence the socket delivers, each beginning with a preamble, and iteration ends *)
+Theorem C07_slices_socket : forall (P : Type) (parse : N -> bytes -> result P) (nmea_hdr : N -> bool) c l,
+  tail_fail l ->
+  slices (map fst (items (sock_run parse nmea_hdr c l))) (chunks l) /\
+  Forall first_is_preamble (map fst (items (sock_run parse nmea_hdr c l))) /\
+  out_of_fuel (sock_run parse nmea_hdr c l) = false.
+Proof.
+  intros P parse nmea_hdr c l Ht. rewrite (c10_refines_file_gen parse nmea_hdr c l Ht).
+  destruct (@c07_slices P parse nmea_hdr c (chunks l)) as [H1 H2].
+  split; [exact H1|]. split; [exact H2|]. exact (c08_sock_terminates parse nmea_hdr c l Ht).
+Qed.
+Print Assumptions C07_slices_socket.
